@@ -588,6 +588,9 @@ def _render_fn(g, args, rws, subs, hsubs, sections):
                     depth -= 1
                 elif t[1] == ';' and depth == 1:
                     last_semi = t[3]
+                if t[1] == '}' and depth == 1:
+                    # a block statement (loop / if / match) ended at statement level
+                    last_semi = t[3]
             end = body.rstrip().rfind('}')
             if last_semi is not None and body[last_semi:end].strip():
                 inserts.append((last_semi, '\n' + txt))
